@@ -23,11 +23,16 @@ impl Ident { pub const fn make(_s: &'static str) -> &'static Ident { &Ident(0) }
 '''
 
 SPEC = r'''
-pub assume_specification [openssl::rand::rand_bytes] (b: &mut [u8]) -> (r: Result<(), ErrorStack>) ensures final(b)@.len() == old(b)@.len();
+/// these bytes were drawn from the CSPRNG in this run (only ever ESTABLISHED by the assumed contract of rand_bytes)
+pub uninterp spec fn fresh_random(b: Seq<u8>) -> bool;
+/// this value was read back from the store (only ever ESTABLISHED by the assumed contract of KeyValueStore::get)
+pub uninterp spec fn read_back<V>(v: V) -> bool;
+pub assume_specification [openssl::rand::rand_bytes] (b: &mut [u8]) -> (r: Result<(), ErrorStack>) ensures final(b)@.len() == old(b)@.len(), r is Ok ==> fresh_random(final(b)@);
 pub assume_specification [<Error as From<KeyValueError>>::from] (e: KeyValueError) -> (r: Error);
 pub assume_specification [<Error as From<OpenStoreError>>::from] (e: OpenStoreError) -> (r: Error);
 pub assume_specification [StorageSystem::open] (s: &StorageSystem, ns: &Ident) -> (r: Result<KeyValueStore, OpenStoreError>);
-pub assume_specification<V> [KeyValueStore::get::<V>] (s: &KeyValueStore, scope: Option<&Ident>, key: &Ident) -> (r: Result<Option<V>, KeyValueError>);
+pub assume_specification<V> [KeyValueStore::get::<V>] (s: &KeyValueStore, scope: Option<&Ident>, key: &Ident) -> (r: Result<Option<V>, KeyValueError>)
+    ensures r is Ok && r->Ok_0 is Some ==> read_back(r->Ok_0->Some_0);
 pub assume_specification<V> [KeyValueStore::store_new::<V>] (s: &KeyValueStore, scope: Option<&Ident>, key: &Ident, v: &V) -> (r: Result<(), KeyValueError>);
 pub assume_specification [Ident::make] (s: &'static str) -> (r: &'static Ident);
 /// the namespace / key names of the stored session key (opaque identifiers; their spelling is not part of the contract)
@@ -57,5 +62,9 @@ def build():
         U.fn(CRYPT, 'CryptState', 'from_key_bytes', ensures=[('this_key_with_a_fresh_nonce_state', 'r is Ok ==> r->Ok_0.key == key && fresh_nonce_state(r->Ok_0.nonce)')]),
     ])
     U.free(U.fn(CRYPT, None, 'crypt_init', ensures=[
-        ('nonce_sequence_never_continued_from_storage', 'r is Ok ==> fresh_nonce_state(r->Ok_0.nonce)')]))
+        ('nonce_sequence_never_continued_from_storage', 'r is Ok ==> fresh_nonce_state(r->Ok_0.nonce)'),
+        # every instance seals its tokens under ITS OWN key: the key of an earlier start of this instance, or bytes just drawn from the
+        # CSPRNG -- never a constant (a token issued under another instance's key authenticates nobody)
+        ('the_session_key_is_the_stored_one_or_freshly_random', '''r is Ok ==> fresh_random(r->Ok_0.key@)
+                || exists |st: CryptState| #[trigger] read_back(st) && st.key == r->Ok_0.key''')]))
     return U
